@@ -191,7 +191,21 @@ def scan(trees):
                     if not receiver_ok(r): suspicious.append(f'{where}: {ast.unparse(x.func)}(..)')
                 if isinstance(x, ast.Call) and ast.unparse(x.func) in ('setattr', 'delattr', 'globals', 'vars', 'locals', 'exec', 'eval', '__import__'):
                     suspicious.append(f'{where}: {ast.unparse(x.func)}(..)')
-    return dict(self_mut=self_mut, bases=bases, class_containers=sorted(class_containers), module_containers=sorted(module_containers),
+    # objects created once at class-definition / import time and reachable from every inverter object: class-body and module-level bindings
+    # whose value is a constructor call of a class of the package (table rows inside tuples are handled separately: mutable_rows)
+    shared_instances = []
+    for mod, t in trees.items():
+        for n in t.body:
+            if isinstance(n, (ast.Assign, ast.AnnAssign)) and isinstance(n.value, ast.Call) and ast.unparse(n.value.func) in classes:
+                tg = n.targets[0] if isinstance(n, ast.Assign) else n.target
+                shared_instances.append((f'{mod}.{ast.unparse(tg)}', ast.unparse(n.value.func)))
+        for c in ast.walk(t):
+            if not isinstance(c, ast.ClassDef): continue
+            for n in c.body:
+                if isinstance(n, (ast.Assign, ast.AnnAssign)) and isinstance(n.value, ast.Call) and ast.unparse(n.value.func) in classes:
+                    tg = n.targets[0] if isinstance(n, ast.Assign) else n.target
+                    shared_instances.append((f'{c.name}.{ast.unparse(tg)}', ast.unparse(n.value.func)))
+    return dict(self_mut=self_mut, bases=bases, shared_instances=sorted(shared_instances), class_containers=sorted(class_containers), module_containers=sorted(module_containers),
                 globals_w=sorted(set(globals_w)), defaults=sorted(defaults), decorators=sorted(decorators), suspicious=sorted(set(suspicious)))
 
 
@@ -233,6 +247,10 @@ def generate():
     out.append(f"Definition self_mutating_definition_classes : list string := [{'; '.join(q(c) for c in mutating_closure)}].\n")
     out.append("(* other classes whose methods assign their own attributes: per-object state of protocol / inverter / command objects *)")
     out.append(f"Definition stateful_object_classes : list string := [{'; '.join(q(c) for c in other)}].\n")
+    stateful_closure = sorted(subclasses_closure(set(other), sc['bases']))
+    out.append("(* ... with their subclasses; and the objects created at class-definition / import time (shared by all inverter objects) with their class *)")
+    out.append(f"Definition stateful_object_classes_closure : list string := [{'; '.join(q(c) for c in stateful_closure)}].")
+    out.append("Definition shared_instances : list (string * string) :=\n  [" + ';\n   '.join(f'({q(a)}, {q(b)})' for a, b in sc['shared_instances']) + "].\n")
     out.append(f"Definition class_level_containers : list string := [{'; '.join(q(c) for c in sc['class_containers'])}].")
     out.append(f"Definition module_level_containers : list string := [{'; '.join(q(c) for c in sc['module_containers'])}].")
     out.append(f"Definition globals_written : list string := [{'; '.join(q(c) for c in sc['globals_w'])}].")
